@@ -921,7 +921,8 @@ ldb_recover_log_file(ldb_t *db, uint64_t log_number,
   ldb_rfile_destroy(file);
 
   /* See if we should keep reusing the last log file. */
-  if (rc == LDB_OK && db->options.reuse_logs && last_log && compactions == 0) {
+  if (rc == LDB_OK && db->options.reuse_logs && last_log && compactions == 0 &&
+      !reader.dirty) {
     uint64_t lfile_size;
 
     assert(db->logfile == NULL);
